@@ -426,6 +426,10 @@ def main_check(prop, tier, seed, repo, replay=None, jobs=None):
     if not replay:
         for mname, need in plan.get("min_evals", {}).items():
             got = tot["monitors"].get(mname, {}).get("evals", 0)
+            # the modules state what they measured on the current tree (75-90% of it); the purpose of the floor is to notice a
+            # BLIND monitor, not to pin cryoCAT's internal call structure (a refactoring that stops routing one function
+            # through another changes how often a call monitor is reached), so half of the stated figure is required
+            need = max(1, int(need * 0.5))
             if got < need:
                 inconclusive.append("monitor %s reached %d in-domain evaluations (< %d)" % (mname, got, need))
         for key, need in plan.get("min_known", {}).items():
